@@ -196,7 +196,7 @@ def _ens(S, a, r):
 
 
 def _layouts(n_runs, rng, many):
-    base = [[1], [2, 1], [1, 1, 2]]
+    base = [[1], [2, 1], [1, 1, 2], [1, 0], [0, 2, 0]]      # rows per chunk, chunks without rows included
     combos = list(itertools.product(base, repeat=n_runs))
     rng.shuffle(combos)
     return combos[: (len(combos) if many else 2)]
@@ -226,7 +226,7 @@ superrun_concat = Contract(
                                                    redefine="bool"),
     ensures=_ens, raises={},
     harness=Harness(native=_native, gen=_gen,
-                    scope="1..3 (thorough: 4) subruns with chunk layouts from {[1],[2,1],[1,1,2]} rows per chunk, subrun ids passed to "
+                    scope="1..3 (thorough: 4) subruns with chunk layouts from {[1],[2,1],[1,1,2],[1,0],[0,2,0]} rows per chunk, subrun ids passed to "
                           "define_run in permuted order, superrun processing starting one or two levels below the target, "
                           "write_superruns on/off, rechunk_on_save with a tiny target size (rechunking across subrun borders), "
                           "single_thread (thorough: also threaded_mailbox) processor, redefinition with the last subrun dropped; "
